@@ -7,6 +7,8 @@
 #include <crab/domains/abstract_domain.hpp>
 #include <crab/domains/abstract_domain_params.hpp>
 #include <crab/domains/generic_abstract_domain.hpp>
+#include <crab/domains/graphs/graph_config.hpp>
+#include <crab/domains/intervals.hpp>
 #include <crab/fixpoint/thresholds.hpp>
 
 namespace vb {
